@@ -160,3 +160,58 @@ def extract_queue():
         PushPublishesLast=w_push < a_push[3][3],
         DropPublishesLast=w_drop < a_drop[0][3],
     )
+
+
+# ---------------------------------------------------------------------------------------------------------------------
+# the one-shot reply slot (SlotRA.tla)
+SLOT = REPO + "/nexosim/src/util/slot.rs"
+
+_STATE_OP = re.compile(r"state\s*\.\s*(load|store|fetch_or|fetch_and|swap|compare_exchange_weak|compare_exchange)\s*\(", re.S)
+
+
+def _state_ops(body):
+    out = []
+    for m in _STATE_OP.finditer(body):
+        depth, k = 1, m.end()
+        while k < len(body) and depth:
+            depth += body[k] == "("
+            depth -= body[k] == ")"
+            k += 1
+        out.append((m.group(1), re.findall(r"Ordering::(\w+)", body[m.end():k]), m.start()))
+    return out
+
+
+def extract_slot():
+    src = _strip_comments(open(SLOT).read())
+    write = _body(src, "pub(crate) fn write(self")
+    wdrop = _body(src, "Drop for SlotWriter<T>")
+    tread = _body(src, "pub(crate) fn try_read(&mut self")
+    rdrop = _body(src, "Drop for SlotReader<T>")
+    a_w, a_wd, a_r, a_rd = _state_ops(write), _state_ops(wdrop), _state_ops(tread), _state_ops(rdrop)
+    shape = lambda a: [x[0] for x in a]
+    if shape(a_w) != ["fetch_or"] or shape(a_wd) != ["load", "fetch_or"] or shape(a_r) != ["load", "store"] or \
+            shape(a_rd) != ["load", "fetch_or"]:
+        raise ToolError("specification out of date: the atomic operations of util/slot.rs changed: "
+                        f"write {shape(a_w)}, writer drop {shape(a_wd)}, try_read {shape(a_r)}, reader drop {shape(a_rd)}")
+    for name, b in (("SlotWriter::drop", wdrop), ("try_read", tread), ("SlotReader::drop", rdrop)):
+        if re.search(r"\bfence\s*\(", b):
+            raise ToolError(f"specification out of date: {name} of util/slot.rs now contains a fence")
+    fences = [(m.group(1), m.start()) for m in re.finditer(r"\bfence\s*\(\s*Ordering::(\w+)\s*\)", write)]
+    # program order: the value is written before the flag is published; it is read after the flag was loaded; the
+    # writer's fence (if any) sits between its read-modify-write and the accesses it protects
+    if not (0 <= write.find("write_value") < a_w[0][2]):
+        raise ToolError("specification out of date: SlotWriter::write no longer writes the value before publishing the flag")
+    if not (a_r[0][2] < tread.find("read_value")):
+        raise ToolError("specification out of date: try_read reads the value before loading the state")
+    first_use = min(x for x in (write.find("drop_value_in_place"), write.find("Box::from_raw")) if x >= 0)
+    fence_ok = any(o in ("Acquire", "AcqRel", "SeqCst") and a_w[0][2] < pos < first_use for o, pos in fences)
+    return dict(
+        OWWrite=_ord2(a_w[0][1][0], "rmw"),
+        FWClosed=fence_ok,
+        OWDropLoad=_ord2(a_wd[0][1][0], "load"),
+        OWDropRmw=_ord2(a_wd[1][1][0], "rmw"),
+        ORRead=_ord2(a_r[0][1][0], "load"),
+        ORStore=_ord2(a_r[1][1][0], "store"),
+        ORDropLoad=_ord2(a_rd[0][1][0], "load"),
+        ORDropRmw=_ord2(a_rd[1][1][0], "rmw"),
+    )
